@@ -11,16 +11,32 @@ COMMON_NOTE = ('Trusted: assumed contracts for bytes/futures channels/write_all/
                '(handlers run one at a time to completion); Verus/Z3/rustc. Interleavings are reduced to sequences of handler calls by that assumption.')
 
 CLAIMS = {
-    'C05': ('proof', 'Verus discharges, on handle_message/handle_packet extracted from the working tree, that a pending entry is registered under the '
+    'C05': ('proof', 'Verus discharges, on handle_message/handle_packet and the ContextHandle operations extracted from the working tree, that a pending entry is registered under the '
             'action id of its own channel, that an acknowledgement removes exactly the first pending entry with its (type, id) key and nothing else, '
             'and (as a call-site precondition of oneshot::Sender::send) that an acknowledgement is only ever sent to the operation keyed by it.', '5 C05'),
+    'C06': ('proof', 'Verus discharges, on ContextHandle::publish extracted from the working tree, the whole handshake as a postcondition over the messages handed to the context '
+            'and the (prophesied) outcomes of their channels: QoS0 = one FireAndForget PUBLISH; QoS1 = one PUBLISH (DUP=0,QoS bits 01) keyed by PUBACK(id), result by reason threshold 0x80; '
+            'QoS2 = PUBLISH keyed by PUBREC(id), then exactly one PUBREL with the PUBREC id iff reason < 0x80, result by PUBCOMP; handle_message adds: written once as given, stored copy has DUP=1.', '5 C06'),
+    'C07': ('proof', 'Verus discharges: the stream sender is registered with its subscription identifier before the SUBSCRIBE is written (handle_message); an inbound PUBLISH is pushed, intact, '
+            'onto exactly the first registered stream whose key is its subscription identifier and onto no other (whole-queue postcondition of handle_packet, misdelivery is a call-site precondition); '
+            'a dead stream is dropped alone; unsuback/others never touch streams; SubscribeStream::poll_next yields the buffered messages in order and ends only when the channel is closed and drained; '
+            'subscribe() returns the receiving end of the registered sender.', '5 C07'),
     'C08': ('proof', 'Verus discharges a whole-wire postcondition of handle_packet: for every inbound packet and session state the bytes appended are exactly '
             'PUBACK(id)/PUBREC(id)/PUBCOMP(id) for QoS1/QoS2 PUBLISH and PUBREL, and nothing otherwise, independent of subscription identifiers.', '5 C08'),
     'C10': ('proof', 'Verus discharges the send-quota step contracts of handle_connack/handle_message/handle_packet/retransmit for all u16 values: '
             'quota <= Receive Maximum is invariant, a QoS>0 PUBLISH takes one slot or is refused untouched at 0, PUBACK/PUBCOMP/failing PUBREC free exactly one, '
             'nothing else changes quota or Receive Maximum.', '5 C10'),
+    'C11': ('proof', 'Verus discharges on the real allocators next_packet_id/next_sub_id (any value may come back from fetch_add): result != 0 resp. within 1..=268435455, '
+            'and at every call site in publish/subscribe/unsubscribe the non-zero/in-range precondition of the option setters (the unwrap that used to panic). '
+            'Distinctness among outstanding operations is a pure lemma over the assumed fetch_add semantics (wrapping +1, atomic), see level_note.', '5 C11'),
     'C12': ('proof', 'Verus discharges: validate_packet_size is Ok iff no limit or len <= M; an oversize message leaves wire, queues and quota untouched and is '
             'answered with MaximumPacketSizeExceeded only; an accepted message is written as one whole packet; CONNACK stores M.', '5 C12'),
+    'C13': ('proof', 'Verus discharges connect()/authorize() outcome-by-first-inbound-item (ConnectRsp / ConnectError by the 0x80 threshold / AuthRsp / SocketClosed / CodecError / error for any other packet), '
+            'exactly one packet written and refusal before writing; and for the two select! arms and the prologue of run(), extracted as functions: Ok exit exactly after the user DISCONNECT was written '
+            '(nothing after it) or server DISCONNECT reason 0, Disconnected carrying the server packet otherwise, SocketClosed on end of stream / write error, HandleClosed when all handles are gone, CodecError for undecodable input, Continue otherwise.', '5 C13'),
+    'C14': ('proof', 'Safety half only, as per-call contracts under the assumed channel semantics: every handle operation returns ContextExited when unbounded_send fails (before any await) or when its '
+            'receiver is cancelled (both QoS2 phases); reset_session drops every sender; SubscribeStream yields what is buffered and then None exactly when the channel is closed. '
+            'The liveness half (a dropped sender wakes its receiver) is the assumed futures contract, not proved.', '5 C14'),
     'C15': ('proof', 'Verus discharges that handle_message/handle_packet never fail because a caller is gone (the oneshot/mpsc stand-ins may fail '
             'nondeterministically): the only errors are a failed transport write and a server DISCONNECT; queue removal and quota release are the same postconditions as C05/C10.', '5 C15'),
     'C17': ('proof', 'Verus discharges session_expired == (interval==0 or finite interval elapsed) over all u32 x u64, the retransmission queue step contracts '
